@@ -823,11 +823,29 @@ def bdatBegin (s : S) : S × Nat :=
     let s := if dec.want == some 0 then delivFinish s k .none else s
     (s, k)
 
+/-- the reply to a chunk that could not be copied.  In LMTP a LAST chunk is answered with one reply per accepted recipient
+    all the same (RFC 2033 4.2): if the delivery has ended, the statuses it set stand and the other recipients get the
+    error (`fillRemaining(err)`; a backend without per-recipient support has given every recipient its result); if it
+    is still running (the source failed), every recipient gets the error. -/
+def bdatFailReplies (s : S) (k : Nat) (last : Bool) (err : BRes) : S :=
+  if s.cfg.lmtp && last then
+    let rcpts := s.c.recipients
+    if delivRunning s k then writeLmtpStatuses s (rcpts.map (fun a => (a, err)))
+    else
+      let r := delivRet s k
+      let isPanic := r == .panic
+      if !s.cfg.lmtpSess then writeLmtpStatuses s (rcpts.map (fun a => (a, if isPanic then errPanic else r)))
+      else
+        let (q, okCalls) := applyStatuses ((s.c.bdatStatus).getD rcpts) (delivDec s k).statuses []
+        writeLmtpStatuses s (collect rcpts q (if okCalls && !isPanic then err else errPanic))
+  else
+    let (code, enh, msg) := dataStatus err
+    replyB s code enh [msg]
+
 /-- a chunk could not be copied: skip what is left of it, report, end the transaction -/
-def bdatFail (s : S) (left : Nat) (err : BRes) : S × Bool :=
+def bdatFail (s : S) (k left : Nat) (last : Bool) (err : BRes) : S × Bool :=
   let s := setW s (discardN (wireFuel s.w) s.w left)
-  let (code, enh, msg) := dataStatus err
-  let s := replyB s code enh [msg]
+  let s := bdatFailReplies s k last err
   let s := if err == errPanic then closeConn s else s
   let s := resetConn s
   (setLimit s s.cfg.maxLine, false)
@@ -863,15 +881,15 @@ def bdatDone (s : S) (k size : Nat) (last : Bool) : S × Bool :=
 /-- what follows the copy of a chunk, by the way it ended -/
 def bdatAfterCopy (s : S) (k size left : Nat) (last : Bool) (ce : CopyEnd) : S × Bool :=
   match ce with
-  | .short => bdatFail s left (.er "unexpected EOF".b)
-  | .srcErr e => bdatFail s left (.er (match e with
+  | .short => bdatFail s k left last (.er "unexpected EOF".b)
+  | .srcErr e => bdatFail s k left last (.er (match e with
       | .tooLong => "smtp: too long a line in input stream".b
       | .timeout => "i/o timeout".b
       | .closed => "use of closed network connection".b
       | .eof => "EOF".b))
   | .pipeErr =>
     let r := delivRet s k
-    (if r == .panic then bdatFail s left errPanic else bdatFail s left (pipeWriteErr r))
+    (if r == .panic then bdatFail s k left last errPanic else bdatFail s k left last (pipeWriteErr r))
   | .done => bdatDone s k size last
 
 /-- an accepted BDAT command: start or continue the transfer, copy the chunk -/
